@@ -289,6 +289,17 @@ class C06(Prop):
                     st = (t[1], cu, int(t[3]), False)
             elif t[0] == "setstrat" and len(t) == 3 and t[1] in STRATS and st:
                 st = (t[1], None if t[2] == "none" else Fraction(t[2]), st[2], "changed" if st[3] else False)
+            elif t[0] == "attr" and len(t) == 3:
+                em = "changed" if st[3] else False
+                try:
+                    if t[1] == "strategy" and t[2] in STRATS:
+                        st = (t[2], st[1], st[2], em)
+                    elif t[1] == "threshold":
+                        st = (st[0], None if t[2] == "none" else Fraction(t[2]), st[2], em)
+                    elif t[1] == "minvoters":
+                        st = (st[0], st[1], int(t[2]), em)
+                except (ValueError, ZeroDivisionError):
+                    pass
             out.append(st)
         return out
 
@@ -351,6 +362,14 @@ class C06(Prop):
                     s2 = rng.choice(STRATS)
                     lines.append(f"setstrat {s2} {self._rand_custom(rng, s2)}")
                     lines.append(self.vote_line(ballot))
+                if rng.random() < 0.15:                   # the same through the public attributes, no setter
+                    s2 = rng.choice(STRATS)
+                    lines.append(f"attr strategy {s2}")
+                    if rng.random() < 0.6:
+                        lines.append(f"attr threshold {self._rand_custom(rng, s2)}")
+                    if rng.random() < 0.3:
+                        lines.append(f"attr minvoters {rng.choice([0, 1, 2, 3])}")
+                    lines.append(self.vote_line(ballot))
             if rng.random() < 0.25:                       # the un-stubbed colony (real BioAgent voters)
                 lines.append(f"realvote {rng.choice(['safe', 'safe', 'danger', 'inject'])} "
                              f"{rng.choice([1000, 1000, 0, 10, 25, 30, 45, 9])} {rng.choice([1, 2, 3, 4, 5, 7, 0])}")
@@ -396,9 +415,28 @@ class C06(Prop):
             elif x < 0.43:
                 nm = rng.choice(names + ["nobody"]) if names else "nobody"
                 lines.append(f"setw {hexs(nm)} {rng.choice(W)}")
-            elif x < 0.5:
+            elif x < 0.47:
                 s2 = rng.choice(strats)
                 lines.append(f"setstrat {s2} {self._rand_custom(rng, s2)}")
+            elif x < 0.5:
+                y = rng.random()
+                if y < 0.5:
+                    lines.append(f"attr strategy {rng.choice(strats)}")
+                elif y < 0.75:
+                    lines.append(f"attr threshold {rng.choice(['none', '0', '1/4', '1/2', '3/4', '1', '2', '3', '3/10'])}")
+                else:
+                    lines.append(f"attr minvoters {rng.choice([0, 1, 1, 2, 3])}")
+            elif x < 0.52 and names:
+                i = rng.randrange(len(names))
+                lines.append(f"ldel {i}")
+                del names[i]
+            elif x < 0.54:
+                i = rng.randrange(len(names) + 2)
+                nm = rng.choice(self.NAMES)
+                lines.append(f"linsert {i} {hexs(nm)} {rng.choice(W)}")
+                names.insert(min(i, len(names)), nm)
+            elif x < 0.56 and names:
+                lines.append(f"pset {rng.randrange(len(names))} {rng.choice(W + ['_'])} {rng.choice(REL + ['_'])}")
             elif x < 0.58 and votes:
                 lines.append(f"relall {rng.choice(['permit', 'permit', 'block', 'abstain', 'defer'])}")
             elif x < 0.63:
@@ -562,12 +600,13 @@ class C06(Prop):
         else:
             tag = show_rat(Fraction(float(r.threshold_used)).limit_denominator(10 ** 6))
         obs = " ".join([show_bool(r.reached), r.decision.value, str(r.permit_votes), str(r.block_votes),
-                        str(r.abstain_votes), str(r.total_votes), tag, "[" + votes + "]"])
+                        str(r.abstain_votes), str(r.total_votes), tag, "[" + votes + "]", r.strategy.value])
         return obs, r
 
     def run_impl(self, case):
         obs = []
         ballots = {}                                    # line index -> the electorate the real object held at that vote
+        visible = {}                                    # line index -> (strategy, custom_threshold, min_voters, emergency?)
         states = self._states(case["lines"])
         q = None
         pending = ("majority", None, 1, False)          # configuration to construct with
@@ -625,6 +664,34 @@ class C06(Prop):
                 elif t[0] == "setw" and len(t) == 3:
                     ok = ensure().set_agent_weight(unhexs(t[1]), float(Fraction(t[2])))
                     obs.append(show_bool(ok) + " " + self._colony_obs(q))
+                elif t[0] == "attr" and len(t) == 3 and t[1] in ("strategy", "threshold", "minvoters"):
+                    # direct assignment of a public attribute the vote reads (no setter)
+                    if t[1] == "strategy":
+                        ensure().strategy = self.m.VotingStrategy(t[2])
+                    elif t[1] == "threshold":
+                        ensure().custom_threshold = None if t[2] == "none" else float(Fraction(t[2]))
+                    else:
+                        ensure().min_voters = int(t[2])
+                    obs.append("ok")
+                elif t[0] == "ldel" and len(t) == 2:
+                    if q is None or not (0 <= int(t[1]) < len(q.colony)):
+                        obs.append("bad-op")
+                    else:
+                        del q.colony[int(t[1])]
+                        obs.append(self._colony_obs(q))
+                elif t[0] == "linsert" and len(t) == 4:
+                    i, name, w = int(t[1]), unhexs(t[2]), float(Fraction(t[3]))
+                    ensure().colony.insert(i, self.m.AgentProfile(agent=Stub(name), weight=w))
+                    obs.append(self._colony_obs(q))
+                elif t[0] == "pset" and len(t) == 4:
+                    if q is None or not (0 <= int(t[1]) < len(q.colony)):
+                        obs.append("bad-op")
+                    else:
+                        if t[2] != "_":
+                            q.colony[int(t[1])].weight = float(Fraction(t[2]))
+                        if t[3] != "_":
+                            q.colony[int(t[1])].reliability_score = float(Fraction(t[3]))
+                        obs.append(self._colony_obs(q))
                 elif t[0] == "relupd" and len(t) == 3:
                     ensure().update_reliability(unhexs(t[1]), t[2] in ("1", "true", "True"))
                     obs.append(self._colony_obs(q))
@@ -637,12 +704,16 @@ class C06(Prop):
                     with contextlib.redirect_stdout(io.StringIO()):
                         self._resize(q, len(ballot))
                     ballots[li] = self._install(q, ballot)
+                    # the configuration visible through the public attributes at this moment: what the oracle judges by
+                    ct = q.custom_threshold
+                    visible[li] = (q.strategy.value, None if ct is None else Fraction(float(ct)).limit_denominator(10 ** 6),
+                                   int(q.min_voters), isinstance(q, self.m.EmergencyQuorum) and "changed")
                     obs.append(self._observe(q, len(ballot), skip_nondyadic=True)[0])
                 else:
                     obs.append("bad-op")
             except (ValueError, ZeroDivisionError, KeyError):
                 obs.append("bad-op")
-        return obs, {"ballots": ballots}
+        return obs, {"ballots": ballots, "visible": visible}
 
     # --- oracle: the property text on what the real code did --------------------------------------------------
     def _fresh(self, st, n, budget=1000):
@@ -653,6 +724,7 @@ class C06(Prop):
             if st[3] == "changed":
                 with contextlib.redirect_stdout(io.StringIO()):
                     q.set_strategy(self.m.VotingStrategy(st[0]), cu)
+                q.min_voters = st[2]
         else:
             q = self._make(st[0], cu, st[2], n, False, budget)
         return q
@@ -683,60 +755,75 @@ class C06(Prop):
                     continue
             if o.startswith("skip:"):
                 continue
-            sp = Spec(st[0], st[1], st[2], ballot)
-            if o.startswith("raise:"):
-                if sp.n >= 1:
-                    out.append(Violation("run_vote_returns", "a QuorumResult for a non-empty colony", o, idx))
-                continue
-            f = o.split(" ")
-            reached, decision = f[0] == "1", f[1]
-            p, b, a, total = int(f[2]), int(f[3]), int(f[4]), int(f[5])
-            got_votes = [x for x in f[7][1:-1].split(",") if x]
-            # counts equal the ballots cast
-            want = (len(sp.P), len(sp.B), len(sp.A), sp.n)
-            if (p, b, a, total) != want:
-                out.append(Violation("counts_equal_ballots", f"permit/block/abstain/total={want}", o, idx))
-            want_votes = [f"{k}:{show_w(w)}:{show_rat(c)}" for (k, c, w) in sp.votes]
-            if [x.rsplit(":", 1)[0] for x in got_votes] != want_votes:
-                out.append(Violation("votes_are_the_ballots_cast", ",".join(want_votes), f[7], idx))
-            if (decision == "permit") != reached:
-                out.append(Violation("permit_iff_reached", "decision PERMIT exactly when reached", o, idx))
-            if not sp.nonneg_threshold():
-                continue                       # outside the configuration domain of the property
-            # no PERMIT without a permit vote
-            if not sp.P and (reached or decision == "permit"):
-                out.append(Violation("no_permit_without_permit_vote", "not PERMIT (no permit vote in the ballot)", o, idx))
-            if not sp.valid():
-                continue                       # negative weights/confidences: outside the ballot domain
-            # reached only if the permit votes meet the stated criterion
-            if reached and not sp.criterion():
-                out.append(Violation("reached_only_if_criterion",
-                                     f"not reached: {st[0]} criterion not met (permit={len(sp.P)} block={len(sp.B)} "
-                                     f"score/threshold={sp.score_and_threshold()} need={sp.need() if st[0]=='threshold' else '-'})",
-                                     o, idx))
-            # unanimous permit with at least the minimum voters is PERMIT (attainable criterion, supported)
-            if sp.n >= 1 and len(sp.P) == sp.n and sp.n >= sp.min_voters and sp.attainable() and sp.supported() \
-                    and not reached:
-                out.append(Violation("unanimous_permit_is_permit", "PERMIT", o, idx))
-            # any block defeats UNANIMOUS
-            if st[0] == "unanimous" and sp.B and reached:
-                out.append(Violation("block_defeats_unanimous", "not PERMIT", o, idx))
-            # monotonicity and irrelevance of abstainers: re-run the real code on perturbed ballots
-            if reached:
-                for why, b2 in self._perturbations(ballot, idx):
-                    r2 = self._ask(st, b2)
-                    if r2 is None or not r2[0] or r2[1] != "permit":
-                        out.append(Violation(why, "still PERMIT after the change", f"{self.vote_line(b2)} -> {r2}", idx))
-            elif not reached and any(v[0] in ("abstain", "defer") for v in sp.votes):
-                # abstaining / deferring / failed voters are no support: without them the outcome is not more favourable
-                # (the count strategy may need fewer permits for a smaller colony, so only PERMIT -> PERMIT is demanded
-                # in that direction; here: giving them huge weight and confidence must not create a PERMIT)
-                b2 = [(v[0], Fraction(2), Fraction(1), v[3] if v[3] == "bad" else "1")
-                      if cast(v)[0] in ("abstain", "defer") else v for v in ballot]
+            # judged by the configuration the operations of the history established (constructor arguments, setters,
+            # direct assignments) and by the one visible through the public attributes at that moment; on a correct
+            # tree the two are the same
+            vis = (extra or {}).get("visible", {}).get(idx)
+            for cfg_st in ([st] if vis is None or vis[:3] == st[:3] else [st, vis]):
+                for v in self._judge(idx, o, cfg_st, ballot):
+                    if not any(v.clause == w.clause and v.at == w.at for w in out):
+                        out.append(v)
+        return out
+
+    def _judge(self, idx, o, st, ballot):
+        """the clauses of the property for one vote, under configuration `st`, on the electorate `ballot`"""
+        out = []
+        sp = Spec(st[0], st[1], st[2], ballot)
+        if o.startswith("raise:"):
+            if sp.n >= 1:
+                out.append(Violation("run_vote_returns", "a QuorumResult for a non-empty colony", o, idx))
+            return out
+        f = o.split(" ")
+        reached, decision = f[0] == "1", f[1]
+        p, b, a, total = int(f[2]), int(f[3]), int(f[4]), int(f[5])
+        got_votes = [x for x in f[7][1:-1].split(",") if x]
+        # counts equal the ballots cast
+        want = (len(sp.P), len(sp.B), len(sp.A), sp.n)
+        if (p, b, a, total) != want:
+            out.append(Violation("counts_equal_ballots", f"permit/block/abstain/total={want}", o, idx))
+        want_votes = [f"{k}:{show_w(w)}:{show_rat(c)}" for (k, c, w) in sp.votes]
+        if [x.rsplit(":", 1)[0] for x in got_votes] != want_votes:
+            out.append(Violation("votes_are_the_ballots_cast", ",".join(want_votes), f[7], idx))
+        if (decision == "permit") != reached:
+            out.append(Violation("permit_iff_reached", "decision PERMIT exactly when reached", o, idx))
+        if len(f) > 8 and f[8] != st[0]:
+            out.append(Violation("reported_strategy_is_the_configured_one", st[0], f[8], idx))
+        if not sp.nonneg_threshold():
+            return out                     # outside the configuration domain of the property
+        # no PERMIT without a permit vote
+        if not sp.P and (reached or decision == "permit"):
+            out.append(Violation("no_permit_without_permit_vote", "not PERMIT (no permit vote in the ballot)", o, idx))
+        if not sp.valid():
+            return out                     # negative weights/confidences: outside the ballot domain
+        # reached only if the permit votes meet the stated criterion
+        if reached and not sp.criterion():
+            out.append(Violation("reached_only_if_criterion",
+                                 f"not reached: {st[0]} criterion not met (permit={len(sp.P)} block={len(sp.B)} "
+                                 f"score/threshold={sp.score_and_threshold()} need={sp.need() if st[0]=='threshold' else '-'})",
+                                 o, idx))
+        # unanimous permit with at least the minimum voters is PERMIT (attainable criterion, supported)
+        if sp.n >= 1 and len(sp.P) == sp.n and sp.n >= sp.min_voters and sp.attainable() and sp.supported() \
+                and not reached:
+            out.append(Violation("unanimous_permit_is_permit", "PERMIT", o, idx))
+        # any block defeats UNANIMOUS
+        if st[0] == "unanimous" and sp.B and reached:
+            out.append(Violation("block_defeats_unanimous", "not PERMIT", o, idx))
+        # monotonicity and irrelevance of abstainers: re-run the real code on perturbed ballots
+        if reached:
+            for why, b2 in self._perturbations(ballot, idx):
                 r2 = self._ask(st, b2)
-                if r2 is not None and r2[0]:
-                    out.append(Violation("abstain_failed_never_support", "heavier abstainers do not create a PERMIT",
-                                         f"{self.vote_line(b2)} -> {r2}", idx))
+                if r2 is None or not r2[0] or r2[1] != "permit":
+                    out.append(Violation(why, "still PERMIT after the change", f"{self.vote_line(b2)} -> {r2}", idx))
+        elif not reached and any(v[0] in ("abstain", "defer") for v in sp.votes):
+            # abstaining / deferring / failed voters are no support: without them the outcome is not more favourable
+            # (the count strategy may need fewer permits for a smaller colony, so only PERMIT -> PERMIT is demanded
+            # in that direction; here: giving them huge weight and confidence must not create a PERMIT)
+            b2 = [(v[0], Fraction(2), Fraction(1), v[3] if v[3] == "bad" else "1")
+                  if cast(v)[0] in ("abstain", "defer") else v for v in ballot]
+            r2 = self._ask(st, b2)
+            if r2 is not None and r2[0]:
+                out.append(Violation("abstain_failed_never_support", "heavier abstainers do not create a PERMIT",
+                                     f"{self.vote_line(b2)} -> {r2}", idx))
         return out
 
     def _oracle_real(self, t, o, st, idx):
